@@ -381,7 +381,8 @@ class DataInterp(LibInterp):
         if isinstance(v, bool):
             return 'true' if v else 'false'
         if isinstance(v, (int, float)):
-            return repr(float(v))
+            # the JSON text of the number (integral numbers without a fraction): a key function that passes strings through unserialised then meets '1' for 1 and "1"
+            return str(int(v)) if float(v).is_integer() and abs(v) < 1e15 else repr(float(v))
         if isinstance(v, str):
             return '"' + v + '"'
         if isinstance(v, Sym) and v.kind == 'val':
@@ -564,8 +565,8 @@ def run_data_functions(repo, rule='E6l'):
     R1 = [{'a': 1, 'c': 10}, {'a': 2, 'c': 11}, {'a': 2, 'c': 12}]
     L2 = [{'a': 1, 'b': 5}, {'a': 2, 'a2': 7, 'b': 0}, {'a': None}, {'b': 1}]
     R2 = [{'a': 2, 'a3': 'x', 'b': 1}, {'a': 1, 'c': 10, 'a2': 'r'}, {'a': None, 'c': 0}]
-    L3 = [{'a': True, 'k': 'l0'}, {'a': 1, 'k': 'l1'}, {'a': 1.0, 'k': 'l2'}, {'a': '1', 'k': 'l3'}, {'a': [1], 'k': 'l4'}]
-    R3 = [{'a': 1, 'k': 'r-one'}, {'a': True, 'k': 'r-true'}, {'a': '[1]', 'k': 'r-text'}, {'a': [1.0], 'k': 'r-list'}]
+    L3 = [{'a': True, 'k': 'l0'}, {'a': 1, 'k': 'l1'}, {'a': 1.0, 'k': 'l2'}, {'a': '1', 'k': 'l3'}, {'a': [1], 'k': 'l4'}, {'a': None, 'k': 'l5'}, {'a': 'true', 'k': 'l6'}]
+    R3 = [{'a': 1, 'k': 'r-one'}, {'a': True, 'k': 'r-true'}, {'a': '[1]', 'k': 'r-text'}, {'a': [1.0], 'k': 'r-list'}, {'a': 'null', 'k': 'r-null-text'}]
     for lname, left in (('L1', L1), ('L2: fields differ between rows, a2 only in a later row', L2), ('L3: mixed key types', L3), ('empty', [])):
         for rname, right in (('R1', R1), ('R2: fields a2 / a3 collide with generated names', R2), ('R3: mixed key types', R3), ('empty', [])):
             for flag in (False, True):
